@@ -227,18 +227,32 @@ def unknown(run, p):
             loop = x
     if loop is None:
         raise AnalysisError('initialize_from_dict: loop over (kind, value) not found')
-    disp = [s for s in loop.body if isinstance(s, ast.If) and 'constraint_constructor' in names_in(s.test)]
-    if len(disp) != 1:
-        raise AnalysisError('initialize_from_dict: dispatch on the constructor not found')
-    other = disp[0].orelse
-    raises = [x for s in other for x in ast.walk(s) if isinstance(x, ast.Raise)]
-    appends = [x for s in other for x in ast.walk(s) if isinstance(x, ast.Call) and isinstance(x.func, ast.Attribute) and x.func.attr in ('append', 'add_field')]
-    run.ob('C09-UNKNOWN', '%s::%s::unknown-arm' % (f.rel, f.short), not raises and not appends,
-           'unknown-kind arm: %d raise, %d stores' % (len(raises), len(appends)), fn=f, node=disp[0])
+    # the name the constructor looked up for this kind is bound to
+    ctor = None
+    for st in ast.walk(loop):
+        if isinstance(st, ast.Assign) and isinstance(st.value, ast.Call) and norm(st.value.func).endswith('.get') and \
+                'FIELD_CONSTRAINTS_MAP' in norm(st.value.func) and isinstance(st.targets[0], ast.Name):
+            ctor = st.targets[0].id
+    if ctor is None:
+        raise AnalysisError('initialize_from_dict: lookup of the constructor for a kind not found')
     gm = GuardMap(f.node)
-    warns = [x for s in other for x in ast.walk(s) if isinstance(x, ast.Call) and getattr(x.func, 'id', '') in ('warn', 'print')]
-    ok = bool(warns) and all(any(g.kind == 'if' and "startswith('#')" in ast.unparse(g.test) and
-                                 guard_requires(g.test, g.pol, lambda e, pol: (not pol) and "startswith('#')" in ast.unparse(e))
+
+    def unknown_arm(node):
+        """Reached only when no constructor was found for the kind (else arm, or code after `if ctor: ...; continue`)."""
+        return any(g.kind == 'if' and guard_requires(g.test, g.pol, lambda e, pol: isinstance(e, ast.Name) and e.id == ctor and not pol)
+                   for g in gm.chain(node) or ())
+
+    def known_arm(node):
+        return any(g.kind == 'if' and guard_requires(g.test, g.pol, lambda e, pol: isinstance(e, ast.Name) and e.id == ctor and pol)
+                   for g in gm.chain(node) or ())
+    inloop = [x for st in loop.body for x in ast.walk(st)]
+    raises = [x for x in inloop if isinstance(x, ast.Raise) and not known_arm(x)]
+    appends = [x for x in inloop if isinstance(x, ast.Call) and isinstance(x.func, ast.Attribute) and x.func.attr in ('append', 'add_field')
+               and not known_arm(x)]
+    run.ob('C09-UNKNOWN', '%s::%s::unknown-arm' % (f.rel, f.short), not raises and not appends,
+           'paths on which no constructor was found for the kind: %d raise, %d stores' % (len(raises), len(appends)), fn=f, node=loop)
+    warns = [x for x in inloop if isinstance(x, ast.Call) and getattr(x.func, 'id', '') in ('warn', 'print') and unknown_arm(x)]
+    ok = bool(warns) and all(any(g.kind == 'if' and guard_requires(g.test, g.pol, lambda e, pol: (not pol) and "startswith('#')" in ast.unparse(e))
                                  for g in gm.chain(w) or ()) for w in warns)
     run.ob('C09-UNKNOWN', '%s::%s::hash-keys' % (f.rel, f.short), ok, 'the warning is skipped for keys starting with #', fn=f,
            node=warns[0] if warns else None)
